@@ -7,7 +7,6 @@ import (
 	"sync"
 
 	"github.com/ipfs/ipfs-cluster/api"
-	"github.com/ipfs/ipfs-cluster/datastore/inmem"
 	"github.com/ipfs/ipfs-cluster/state"
 	"github.com/ipfs/ipfs-cluster/state/dsstate"
 
@@ -34,6 +33,8 @@ type Shared struct {
 	// FailNth was set (SetFailNth).
 	FailLog error
 	FailNth int
+	// Store is the datastore under State (reads can be made to fail: FailGets)
+	Store *FaultStore
 	// StateErrs: the next StateErrs calls of State() fail (a transient error)
 	StateErrs int
 	nLog    int
@@ -60,11 +61,12 @@ func (s *Shared) failNow() error {
 
 // NewShared creates an empty shared pinset.
 func NewShared(peers []peer.ID) *Shared {
-	st, err := dsstate.New(inmem.New(), "", dsstate.DefaultHandle())
+	store := NewFaultStore()
+	st, err := dsstate.New(store, "", dsstate.DefaultHandle())
 	if err != nil {
 		panic(err)
 	}
-	return &Shared{State: st, PeerSet: append([]peer.ID{}, peers...)}
+	return &Shared{State: st, Store: store, PeerSet: append([]peer.ID{}, peers...)}
 }
 
 // Calls returns a copy of the recorded log calls.
